@@ -171,3 +171,303 @@ def fm(cx):
             continue
         cx.ok(f, construct=label, detail="result = sorted coalesced list, get_free += size", nf=nf, trivial=False)
     cx.need(count >= 24, f"only {count} order types enumerated")
+
+
+# ============================================================================================ AM: allocate + grow
+"""Rule AM evaluates `XBuffer.allocate` together with the real `XBuffer.grow` on ABSTRACT STATES of the allocator.
+
+An abstract state fixes only the qualitative facts the code can branch on: how many free chunks there are, for each
+one whether the (aligned) request does not fit / fits exactly / fits with room to spare, whether the last free chunk
+ends at the capacity, whether the padded request exceeds the capacity, whether a grow_step is configured and whether
+the request fits after growing.  All quantities stay SYMBOLIC in the interpreter (chunk bounds, capacity, size,
+alignment, aligned starts `al(x)`); a comparison is decided by evaluating the queried linear form on two independent
+witness valuations of the abstract state and is accepted only if both give the same sign (otherwise the comparison
+is not determined by the abstract state: exit 2).  The outcome -- returned offset, free list, capacity, growth
+copies -- is compared, as polynomials, with the outcome of an executable first-fit reference model run on the same
+abstract state.  No repository code object is created or called."""
+import random  # noqa: E402
+
+from ..peval import Builtin, Effect, Opaque  # noqa: E402
+
+
+class _Witness:
+    def __init__(self, vals, A):
+        self.vals = dict(vals)
+        self.A = A
+
+    def value(self, p, reg):
+        tot = 0
+        for mono, c in p.t.items():
+            term = c
+            for a in mono:
+                term *= self.atom(a, reg)
+            tot += term
+        return tot
+
+    def atom(self, a, reg):
+        if a in self.vals:
+            return self.vals[a]
+        if a in reg:  # al(<poly>, <alignment poly>)
+            x, al = reg[a]
+            xv, av = self.value(x, reg), self.value(al, reg)
+            v = -(-xv // av) * av
+            self.vals[a] = v
+            return v
+        raise AnalysisError(f"[AM] quantity `{a}` has no value in the abstract state (the code computes with something the model does not know)")
+
+
+def _mk_witness(rng, sc):
+    """random valuation satisfying the qualitative facts of scenario sc, or None"""
+    A = rng.choice([8, 16, 32]) if sc["align"] else rng.choice([8, 16])
+    z = rng.randrange(9, 200)
+    vals = {"A": A, "z": z}
+    pos = rng.randrange(0, 40)
+    bounds = []
+    for i, fit in enumerate(sc["fits"]):
+        s = pos + rng.randrange(1, 30)
+        al = -(-s // A) * A if sc["align"] else s
+        need = al + z
+        if fit < 0:
+            lo = s + 1
+            if need - 1 < lo:
+                return None
+            e = rng.randrange(lo, need)
+        elif fit == 0:
+            e = need
+        else:
+            e = need + rng.randrange(1, 60)
+        if e <= s:
+            return None
+        vals[f"s{i}"], vals[f"e{i}"] = s, e
+        bounds.append((s, e))
+        pos = e
+    n = len(sc["fits"])
+    if n and sc["last_at_end"]:
+        cap = bounds[-1][1]
+    else:
+        cap = pos + rng.randrange(1, 50)
+    vals["cap"] = cap
+    eff_al = A if sc["align"] else 1
+    big = z + eff_al - 1 > cap
+    if big != sc["big"]:
+        return None
+    if sc["gstep"] != "none":
+        if big:
+            vals["G"] = rng.randrange(1, 400)  # not used by the policy when the request exceeds the capacity
+        else:
+            # space available to the request after k growth steps of G bytes
+            if n and sc["last_at_end"]:
+                s_last = bounds[-1][0]
+                base = (-(-s_last // A) * A if sc["align"] else s_last)
+            else:
+                base = (-(-cap // A) * A if sc["align"] else cap)
+            need = base + z - cap  # bytes that must be added behind the old capacity
+            if need <= 0:
+                return None
+            if sc["gstep"] == "enough":
+                vals["G"] = need + rng.randrange(0, 50)
+            else:  # two or three steps needed
+                k = rng.choice([2, 3])
+                lo, hi = -(-need // k), (need - 1) // (k - 1)
+                if lo > hi or lo < 1:
+                    return None
+                vals["G"] = rng.randrange(lo, hi + 1)
+    return _Witness(vals, A)
+
+
+def _am_scenarios(nmax):
+    for align in (True, False):
+        for n in range(0, nmax + 1):
+            for fits in itertools.product((-1, 0, 1), repeat=n):
+                served = any(f >= 0 for f in fits)
+                if served:
+                    yield {"align": align, "fits": fits, "last_at_end": False, "big": False, "gstep": "none"}
+                    if n:
+                        yield {"align": align, "fits": fits, "last_at_end": True, "big": False, "gstep": "none"}
+                else:
+                    for last in ((False, True) if n else (False,)):
+                        for big in (False, True):
+                            for g in ("none", "enough", "short"):
+                                yield {"align": align, "fits": fits, "last_at_end": last, "big": big, "gstep": g}
+                            # a refused enlargement (the new storage cannot be obtained): nothing may have changed
+                            yield {"align": align, "fits": fits, "last_at_end": last, "big": big, "gstep": "none", "refuse": True}
+
+
+class _Stop(Exception):
+    pass
+
+
+@rule("AM", ["C04", "C12"], "allocate + grow agree with the first-fit reference model on every abstract state of the allocator (chunks x fit classes x growth policy)")
+def am(cx):
+    m = cx.m
+    nmax = 3 if cx.tier == "thorough" else 2
+    rng = random.Random(20260929)
+    f_alloc = m.func("context::XBuffer.allocate")
+    I = Interp(m)
+    reg = {}  # al-atom name -> (x poly, alignment poly)
+    state = {"w": None}
+
+    def al(x, a):
+        if a.is_const() and a.const_value() == 1:
+            return Sym(x)
+        name = f"al({x!r};{a!r})"
+        reg[name] = (x, a)
+        return Sym(Poly.atom(name))
+
+    def roundup(pa, pb):
+        # (x + a - 1) & (-a)   /   (x + a - 1) & ~(a - 1) == & (-a)
+        a = -pb
+        x = pa - a + Poly.const(1)
+        if any(k == () for k in []):
+            return None
+        # accept only if `a` is the alignment of the abstract state (symbol A) or the constant 1
+        if (a.is_const() and a.const_value() == 1) or repr(a) == "A":
+            return al(x, a)
+        return None
+
+    def oracle(d):
+        w1, w2 = state["w"]
+        v1, v2 = w1.value(d, reg), w2.value(d, reg)
+        s1, s2 = (v1 > 0) - (v1 < 0), (v2 > 0) - (v2 < 0)
+        if s1 != s2:
+            raise AnalysisError(f"[AM] the sign of `{d!r}` is not determined by the abstract state (the code branches on a fact the model does not fix)")
+        return s1
+
+    I.order_oracle = oracle
+    I.roundup_hook = roundup
+    I.call_hooks["_align"] = lambda interp, args, kwargs: al(topoly(args[0]), topoly(args[1] if len(args) > 1 else kwargs.get("alignment")))
+
+    # ---------------------------------------------------------------- reference model (first fit, grow policy of the documentation)
+    def model(chunks, cap, z, align, gstep, depth=0):
+        """chunks: list of [start poly, end poly]; returns (offset poly, chunks, cap, growths[(oldcap, amount)])"""
+        A = Poly.atom("A") if align else Poly.const(1)
+        growths = []
+        for _ in range(4):
+            for i, (s, e) in enumerate(chunks):
+                a0 = topoly(al(s, A))
+                if oracle(e - a0 - z) >= 0:
+                    new = [list(c) for c in chunks]
+                    new[i][0] = a0 + z
+                    if oracle(e - a0 - z) == 0:
+                        del new[i]
+                    return a0, new, cap, growths
+            sizepa = z + A - Poly.const(1)
+            if oracle(sizepa - cap) > 0:
+                g = sizepa
+            elif gstep is not None:
+                g = gstep
+            else:
+                g = cap
+            growths.append((cap, g))
+            chunks = [list(c) for c in chunks]
+            if chunks and oracle(chunks[-1][1] - cap) == 0:
+                chunks[-1][1] = cap + g
+            else:
+                chunks.append([cap, cap + g])
+            cap = cap + g
+        raise _Stop()
+
+    count = ok_count = 0
+    for sc in _am_scenarios(nmax):
+        w = []
+        for _ in range(400):
+            x = _mk_witness(rng, sc)
+            if x is not None:
+                w.append(x)
+            if len(w) == 2:
+                break
+        if len(w) < 2:
+            continue  # qualitative facts are contradictory (e.g. a fitting chunk although the request exceeds the capacity)
+        # both witnesses must agree on the growth outcome being reachable within the model's bound
+        count += 1
+        state["w"] = w
+        reg.clear()
+        n = len(sc["fits"])
+        z = Poly.atom("z")
+        cap = Poly.atom("cap")
+        gstep = Poly.atom("G") if sc["gstep"] != "none" else None
+        label = (f"{n} free chunk(s), fit {['<' if f < 0 else '=' if f == 0 else '>' for f in sc['fits']]}, align={sc['align']}" +
+                 (f", last chunk {'at' if sc['last_at_end'] else 'before'} the end" if n else "") + (", request > capacity" if sc["big"] else "") + ({"none": "", "enough": ", grow_step set (one step suffices)", "short": ", grow_step set (one step is NOT enough)"}[sc["gstep"]]) + (", enlargement refused (no memory)" if sc.get("refuse") else ""))
+        try:
+            want = None if sc.get("refuse") else model([[Poly.atom(f"s{i}"), Poly.atom(f"e{i}")] for i in range(n)], cap, z, sc["align"], gstep)
+        except _Stop:
+            continue  # needs more than four growths with these witnesses: outside the bound
+        except AnalysisError:
+            continue  # the two witnesses disagree on a growth fact (e.g. whether one grow_step is enough): not one abstract state
+        out = {}
+
+        def thunk():
+            XB = I.global_lookup("context", "XBuffer")
+            Chunk = I.global_lookup("context", "Chunk")
+            objs = [I.call(Chunk, [Sym(Poly.atom(f"s{i}")), Sym(Poly.atom(f"e{i}"))], {}) for i in range(n)]
+            me = Obj("instance", {"chunks": objs, "capacity": Sym(cap), "default_alignment": Sym(Poly.atom("A")), "grow_step": (Sym(gstep) if gstep is not None else None), "buffer": Opaque("storage0")}, cls=XB)
+            def _nb(c):
+                I.effects.append(Effect("new_buffer", size=c))
+                if sc.get("refuse"):
+                    out["state_at_refusal"] = ([(topoly(I.getattr(ch, "start")), topoly(I.getattr(ch, "end"))) for ch in I.getattr(me, "chunks")], topoly(I.getattr(me, "capacity")), I.getattr(me, "buffer"))
+                    raise PyExc("MemoryError", "cannot allocate the new storage")
+                return Opaque(f"storage{len(I.effects)}")
+
+            me.attrs["_new_buffer"] = Builtin("_new_buffer", _nb)
+            out["me"] = me
+            me.attrs["copy_to_native"] = Builtin("copy_to_native", lambda *a, **k: I.effects.append(Effect("copy_to_native", args=a, kwargs=k, cap=I.getattr(me, "capacity"))))
+            out["ret"] = I.call(I.getattr(me, "allocate"), [Sym(z)], {"align": sc["align"]})
+            out["chunks"] = [(topoly(I.getattr(c, "start")), topoly(I.getattr(c, "end"))) for c in I.getattr(me, "chunks")]
+            out["cap"] = topoly(I.getattr(me, "capacity"))
+            out["eff"] = list(I.effects)
+            return None
+
+        try:
+            res = I.explore(thunk, max_paths=4)
+        except AnalysisError as e:
+            if "step limit" in str(e) or "recursion" in str(e).lower():
+                cx.bad(f_alloc, construct=label, detail="the evaluation does not terminate: the retry never finds the space it grew (unbounded growth / recursion)", sub="terminates")
+                continue
+            raise
+        if len(res) != 1:
+            raise AnalysisError(f"[AM] {label}: evaluation forks on {[r['conds'] for r in res][:2]}")
+        if sc.get("refuse"):
+            e = res[0]["exc"]
+            if e is None or e.etype != "MemoryError":
+                cx.bad(f_alloc, construct=label, detail="the refused enlargement is swallowed: allocate returns although no storage could be obtained", sub="refused")
+                continue
+            me = out["me"]
+            now = ([(topoly(I.getattr(ch, "start")), topoly(I.getattr(ch, "end"))) for ch in I.getattr(me, "chunks")], topoly(I.getattr(me, "capacity")))
+            before = ([(Poly.atom(f"s{i}"), Poly.atom(f"e{i}")) for i in range(n)], cap)
+            cx.check(now[0] == before[0] and now[1] == before[1], m.func("context::XBuffer.grow"), construct=label, detail="the allocator is unchanged when the enlargement is refused",
+                     bad_detail=f"after the refused enlargement the free list is {[(repr(a), repr(b)) for a, b in now[0]]} and the capacity {now[1]!r}: the allocator claims free bytes beyond its storage; later requests are served outside the buffer", sub="refused")
+            continue
+        if res[0]["exc"] is not None:
+            e = res[0]["exc"]
+            cx.bad(f_alloc, construct=label, detail=f"allocate raises {e.etype}: {e.msg}", sub="raises")
+            continue
+        woff, wchunks, wcap, wgrow = want
+        probs = []
+        got = topoly(out["ret"])
+        if got is None or got != woff:
+            probs.append(f"returns {out['ret']!r}, the first fit (lowest-addressed chunk that holds the aligned request) is at {woff!r}")
+        if out["chunks"] != [(a, b) for a, b in wchunks]:
+            probs.append(f"free list afterwards is {[(repr(a), repr(b)) for a, b in out['chunks']]}, reference {[(repr(a), repr(b)) for a, b in wchunks]}")
+        if out["cap"] != wcap:
+            probs.append(f"capacity afterwards is {out['cap']!r}, reference {wcap!r}")
+        nb = [e for e in out["eff"] if e.kind == "new_buffer"]
+        cp = [e for e in out["eff"] if e.kind == "copy_to_native"]
+        if len(nb) != len(wgrow) or len(cp) != len(wgrow):
+            probs.append(f"{len(nb)} growth(s) / {len(cp)} copies, the reference grows {len(wgrow)} time(s)" + (" (the buffer grows although a free chunk holds the request)" if len(nb) > len(wgrow) else ""))
+        else:
+            for (oldcap, g), e1, e2 in zip(wgrow, nb, cp):
+                if topoly(e1.size) != oldcap + g:
+                    probs.append(f"new storage of {e1.size!r} bytes, reference {oldcap + g!r}")
+                kw = dict(e2.kwargs)
+                names = ["dest", "dest_offset", "source_offset", "nbytes"]
+                for nm, v in zip(names, e2.args):
+                    kw[nm] = v
+                if topoly(kw.get("nbytes")) != oldcap or topoly(kw.get("dest_offset")) != Poly.const(0) or topoly(kw.get("source_offset")) != Poly.const(0):
+                    probs.append(f"growth copies nbytes={kw.get('nbytes')!r} from {kw.get('source_offset')!r} to {kw.get('dest_offset')!r}; every stored byte (0..{oldcap!r}) must be kept")
+        if probs:
+            for msg in probs[:2]:
+                cx.bad(f_alloc, construct=f"{label}: {msg}", detail="allocate/grow differ from the first-fit reference model on this abstract state", sub="model")
+        else:
+            ok_count += 1
+            cx.ok(f_alloc, construct=label, nf=f"-> {woff!r}, {len(wgrow)} growth(s)", detail="offset, free list, capacity and growth copies equal the reference model")
+    cx.need(count >= 60, f"only {count} abstract allocator states evaluated")
